@@ -85,7 +85,13 @@ def _parse_case(args):
             if res is None:
                 return cid, 'none', None
             res = [res]
-        return cid, 'ok', A.doc(res)
+        ab = A.doc(res)
+        if cid % 3 == 0:
+            # the result has been edited in place by its receiver: the same text read again denotes what it denoted
+            absval.scribble(hs, res)
+            res2 = hs.parse(data, mode=hs.MODE_ZINC, single=single, **({'charset': variant['charset']} if variant.get('charset') else {}))
+            ab = A.doc([res2] if single else res2)
+        return cid, 'ok', ab
     except absval.NotAbstractable as e:
         return cid, 'not_haystack', str(e)
     except Exception as e:
